@@ -278,7 +278,10 @@ def pipe_cases():
 
 # ------------------------------------------------------------------ part C (http)
 HTTP_STATUS = [(200, 'OK'), (204, 'No Content'), (302, 'Found'), (400, 'Bad Request'), (404, 'Not Found'), (500, 'Internal Server Error'), (503, 'Service Unavailable')]
-HTTP_REPLY = [None, '250; message="2.6.0 accepted"', '450; message="4.2.0 later"', '550; message="5.1.1 nope"', 'garbage']
+HTTP_REPLY = [None, '250; message="2.6.0 accepted"', '450; message="4.2.0 later"', '550; message="5.1.1 nope"', 'garbage',
+              # the form the library's own HTTP edge writes when the reply names the command it answers
+              '250; message="2.6.0 accepted"; command="DATA"', '450; message="4.2.0 later"; command="RCPT"',
+              '550; message="5.1.1 nope"; command="RCPT"']
 
 
 def run_http(case):
